@@ -8,5 +8,7 @@ CONSTANTS
   MaxVals = 2
   HookDepth = 2
   OwnBytes = TRUE
+  Nodes = {}
+  ConnConfig = "live"
 INVARIANTS NoTwoCompressedInOneRequest
 CHECK_DEADLOCK FALSE
